@@ -121,14 +121,16 @@ func (f *fakeLogs) StaleReportLogs(context.Context) ([]ocr2keepers.StaleReportLo
 	return s, nil
 }
 
+// stage: consecutive logs of one poll share a transaction hash (one transaction performs a batch of upkeeps; a re-orged
+// perform keeps its hash in another block) - the hash carries no information for the coordinator
 func (f *fakeLogs) stage(logs []c17Log) {
 	f.mu.Lock()
 	defer f.mu.Unlock()
 	for i, l := range logs {
 		if l.Stale {
-			f.stales = append(f.stales, ocr2keepers.StaleReportLog{Key: upkeepKey(l.Key), TransmitBlock: ocr2keepers.BlockKey(l.TB), Confirmations: l.Confs, TransactionHash: fmt.Sprintf("0xs%d", i)})
+			f.stales = append(f.stales, ocr2keepers.StaleReportLog{Key: upkeepKey(l.Key), TransmitBlock: ocr2keepers.BlockKey(l.TB), Confirmations: l.Confs, TransactionHash: fmt.Sprintf("0xs%d", i/2)})
 		} else {
-			f.performs = append(f.performs, ocr2keepers.PerformLog{Key: upkeepKey(l.Key), TransmitBlock: ocr2keepers.BlockKey(l.TB), Confirmations: l.Confs, TransactionHash: fmt.Sprintf("0xp%d", i)})
+			f.performs = append(f.performs, ocr2keepers.PerformLog{Key: upkeepKey(l.Key), TransmitBlock: ocr2keepers.BlockKey(l.TB), Confirmations: l.Confs, TransactionHash: fmt.Sprintf("0xp%d", i/2)})
 		}
 	}
 }
